@@ -100,6 +100,7 @@ class _Conv:
         self.mapper = mapper
         self.precs = precs
         self.forced = forced
+        self.env_tuples = {}
 
     def fmt_split(self, fmt, args, style):
         parts = []
@@ -117,6 +118,14 @@ class _Conv:
                 parts.append(self.conv(args[i]))
         return ("cat", tuple(parts))
 
+    def forced_kw(self, call):
+        for k, val in call[3]:
+            if k == "force_parens_around":
+                if val[0] == "global" and val[1] in self.env_tuples:
+                    return self.env_tuples[val[1]]
+                return _class_names(self.model, self.mapper, val)
+        return self.forced
+
     def field_of(self, v):
         if v[0] == "field":
             return v[1]
@@ -132,8 +141,13 @@ class _Conv:
             return ("data", v[1])
         if t == "attr" and v[1] == NODE:
             return ("data", v[2])
+        if t == "attr" and v[1][0] == "field" and v[2] == "name":
+            return ("childname", v[1][1])
         if t == "rec":
             prec = _prec_value(v[3][0], self.precs) if v[3] else 0
+            if v[1][0] == "binop" and v[1][1] == "Mult" and \
+                    v[1][2][0] == "field" and v[1][3][0] == "field":
+                return ("hole_mul", v[1][2][1], v[1][3][1], prec)
             return ("hole", self.field_of(v[1]), prec, ())
         if t == "call":
             name, args = v[1], v[2]
@@ -151,10 +165,10 @@ class _Conv:
                 return ("paren", self.conv(args[0]))
             if name == "self.join_rec":
                 return ("join", args[0][1], self.field_of(args[1]),
-                        _prec_value(args[2], self.precs), self.forced)
+                        _prec_value(args[2], self.precs), self.forced_kw(v))
             if name == "self.rec_with_force_parens_around":
                 return ("hole", self.field_of(args[0]),
-                        _prec_value(args[1], self.precs), self.forced)
+                        _prec_value(args[1], self.precs), self.forced_kw(v))
             if name == "self.join":
                 sep = args[0][1]
                 seq = args[1]
@@ -217,6 +231,21 @@ def _cond(v, pol):
     if v[0] == "compare" and v[1] in (("Is",), ("IsNot",)) and \
             v[3][0] == ("const", None) and v[2][0] == "elem":
         return None    # None elements of a slice: handled by the join
+    if v[0] == "call" and v[1] == "isinstance" and v[2][0][0] == "field" \
+            and v[2][1][0] == "global" and v[2][1][1] == "Variable":
+        return ("field_is_var", v[2][0][1], pol)
+    if v[0] == "compare" and len(v[1]) == 1 and v[2] == ("param", "enclosing_prec") \
+            and v[1][0] in ("Gt", "GtE", "Lt", "LtE"):
+        return ("enclosing_cmp", v[1][0], v[3][0], pol)
+    if v[0] == "call" and v[1] == "is_constant" and v[2][0][0] == "field":
+        return ("field_is_const", v[2][0][1], pol)
+    if v[0] == "call" and v[1] == "is_zero" and len(v[2]) == 1:
+        a = v[2][0]
+        if a[0] == "field":
+            return ("field_eq", a[1], 0, pol)
+        if a[0] == "binop" and a[1] == "Sub" and a[2][0] == "field" \
+                and a[3][0] == "const":
+            return ("field_eq", a[2][1], a[3][1], pol)
     raise Unsupported(f"condition {str(v)[:80]}")
 
 
@@ -417,6 +446,10 @@ def _extract_handler(model, mapper, n: NodeClass, mem, precs):
                 conds.append(c)
         forced = _forced_of(model, mapper, ps)
         conv = _Conv(model, mapper, precs, forced)
+        for nm, val in ps.env.items():
+            if isinstance(val, tuple) and val and val[0] == "lit" and val[2] and all(
+                    x[0] in ("global", "attr") for x in val[2]):
+                conv.env_tuples[nm] = _class_names(model, mapper, val)
         variants.append(Variant(tuple(conds), conv.conv(ps.retval)))
     if not variants:
         raise Unsupported("no returning path")
@@ -484,6 +517,20 @@ def _extract_const_rule(model, mapper, precs):
 # model printer
 # ---------------------------------------------------------------------------
 
+def mul(a, b):
+    """model of a*b through the operator overloads (Expression.__mul__,
+    Product.__mul__): products splice, other operands pair up"""
+    if a[0] == "Const" and b[0] == "Const":
+        return ("Const", a[1] * b[1])
+    ac = tuple(a[1]) if a[0] == "Product" else (a,)
+    bc = tuple(b[1]) if b[0] == "Product" else (b,)
+    if a[0] == "Product" and b[0] == "Product":
+        return ("Product", ac + bc)
+    if a[0] == "Product":
+        return ("Product", ac + (b,))
+    return ("Product", (a, b))
+
+
 class ModelPrinter:
     def __init__(self, model, table: PrinterTable):
         self.model = model
@@ -518,14 +565,26 @@ class ModelPrinter:
         if vs is None:
             raise Unsupported(f"no template for {name}")
         for v in vs:
-            if all(self.cond(tree, c) for c in v.conds):
+            if all(self.cond(tree, c, prec) for c in v.conds):
                 return self.render(v.template, tree, prec)
         raise Unsupported(f"no variant of {name} applies")
 
-    def cond(self, tree, c):
+    def cond(self, tree, c, prec=0):
+        if c[0] == "enclosing_cmp":
+            rhs = _prec_value(c[2], self.t.precs)
+            r = {"Gt": prec > rhs, "GtE": prec >= rhs, "Lt": prec < rhs,
+                 "LtE": prec <= rhs}[c[1]]
+            return r == c[3]
         if c[0] == "field_is_tuple":
             val = self.get(tree, c[1])
             return (val[0] == "Tuple") == c[2]
+        if c[0] == "field_is_var":
+            return (self.get(tree, c[1])[0] == "Var") == c[2]
+        if c[0] == "field_is_const":
+            return (self.get(tree, c[1])[0] == "Const") == c[2]
+        if c[0] == "field_eq":
+            val = self.get(tree, c[1])
+            return (val[0] == "Const" and val[1] == c[2]) == c[3]
         if c[0] == "len_eq":
             return (len(tree[1]) == c[1]) == c[2]
         raise Unsupported(f"cond {c}")
@@ -555,7 +614,14 @@ class ModelPrinter:
                 return str(tree)
             return str(self.get(tree, t[1]))
         if k == "hole":
-            return self.child(self.get(tree, t[1]), t[2], t[3])
+            p_ = prec if t[2] == "ENCLOSING" else t[2]
+            return self.child(self.get(tree, t[1]), p_, t[3])
+        if k == "hole_mul":
+            p_ = prec if t[3] == "ENCLOSING" else t[3]
+            return self.print(mul(self.get(tree, t[1]), self.get(tree, t[2])), p_)
+        if k == "childname":
+            sub = self.get(tree, t[1])
+            return sub[1]
         if k == "join":
             items = self.get(tree, t[2])
             if items and items[0] == "Tuple":
